@@ -292,6 +292,13 @@ def xcorr_cases(draw):
     return case
 
 
+def _no_dust(v):
+    """Coefficient magnitudes below 1e-3 A become exactly 0: Hypothesis likes values such as 5e-282, whose products with
+    alpha**n are subnormal, so that 'relative to the term scale' stops being meaningful (thorough-tier false alarm,
+    DESIGN section 7).  Same floor as in history_cases."""
+    return 0.0 if abs(v) < 1e-3 else v
+
+
 @st.composite
 def search_cases(draw):
     """grid_search_hyperparameters / optimize_hyperparameters with alias keys: values are either numbers (fixed)
@@ -311,7 +318,7 @@ def search_cases(draw):
                 lo = draw(st.floats(-1.5, 1.0))
                 hi = lo + draw(st.floats(0.05, 1.0))
             else:
-                lo = draw(st.floats(-500.0, 400.0) | st.sampled_from([100.0, -300.0, 0.0]))
+                lo = _no_dust(draw(st.floats(-500.0, 400.0) | st.sampled_from([100.0, -300.0, 0.0])))
                 hi = lo + draw(st.floats(1.0, 300.0))
             n = None
             if mode == "grid_search":
@@ -319,7 +326,7 @@ def search_cases(draw):
                 combos *= n
             items.append([key, {"low": lo, "high": hi, "n": n}])
         else:
-            items.append([key, draw(_ANGLES) if s_.startswith("phi") else draw(st.floats(-500.0, 500.0))])
+            items.append([key, draw(_ANGLES) if s_.startswith("phi") else _no_dust(draw(st.floats(-500.0, 500.0)))])
     return {
         "kind": "alias",
         "site": mode,
@@ -439,6 +446,10 @@ def _rel(a, b, scale):
     a = np.asarray(a, dtype=np.float64)
     b = np.asarray(b, dtype=np.float64)
     d = np.abs(a - b)
+    # phases are in radians: an absolute difference below 1e-200 rad is not an observable difference (it only arises for
+    # coefficient "dust" such as 5e-282 A, where intermediate products are subnormal and 'relative to the term scale' is
+    # meaningless - thorough-tier false alarm, DESIGN section 7)
+    d = np.where(d < 1e-200, 0.0, d)
     with np.errstate(divide="ignore", invalid="ignore"):
         r = np.where(d == 0.0, 0.0, d / scale)
     r = np.where(np.isnan(r), np.inf, r)
